@@ -27,6 +27,10 @@ structure Lvl where
   nwField : Nat      -- NWORDS_FIELD
   radix : Nat        -- RADIX (64 on the verified configuration)
   nqr : Nat          -- entries of NQR_TABLE / Z_NQR_TABLE
+  hintThrP : Nat     -- `hint < hintThrP` ⇒ NQR_TABLE[hint] is read (basis.c, extracted: SqiGen.VerifConsts)
+  hintThrQ : Nat     -- `hint < hintThrQ` ⇒ Z_NQR_TABLE[hint] is read
+  hintLoP : Bool     -- the table branch is also guarded by `hint >= 0`
+  hintLoQ : Bool
   cols4 : Nat        -- columns of STRATEGY4
   cols2 : Nat        -- columns of strategies
   strat4 : List (List Nat)   -- STRATEGY4 (rows)
@@ -195,13 +199,13 @@ def sim2 (row : List Nat) (n adj : Nat) : Option (Nat × Nat) :=
 
 /-! ## the pieces of the verifier body -/
 
-/-- basis.c `ec_curve_to_point_2f_*_from_hint`: `if (hint < 20) x = TABLE[hint]` -/
-def hintAcc (K : Lvl) (what : String) (h : Int) : List Access :=
-  if h < 20 then [.index what h K.nqr] else []
+/-- basis.c `ec_curve_to_point_2f_*_from_hint`: `if (hint < thr) x = TABLE[hint]` (thr extracted from the C text) -/
+def hintAcc (K : Lvl) (lo : Bool) (thr : Nat) (what : String) (h : Int) : List Access :=
+  if (lo = true → 0 ≤ h) ∧ h < thr then [.index what h K.nqr] else []
 
 /-- basis.c `ec_curve_to_basis_2f_from_hint(…, f, hint)` incl. `clear_cofactor_for_maximal_even_order` -/
 def fromHint (K : Lvl) (tag : String) (fArg h0 h1 : Int) : List Access :=
-  hintAcc K (tag ++ ":NQR_TABLE[hint[0]]") h0 ++ hintAcc K (tag ++ ":Z_NQR_TABLE[hint[1]]") h1 ++
+  hintAcc K K.hintLoP K.hintThrP (tag ++ ":NQR_TABLE[hint[0]]") h0 ++ hintAcc K K.hintLoQ K.hintThrQ (tag ++ ":Z_NQR_TABLE[hint[1]]") h1 ++
   [.loop (tag ++ ":clear_cofactor doublings POWER_OF_2 - f") ((K.f : Int) - fArg) K.f]
 
 /-- isog_chains.c `ec_eval_even` → `ec_eval_even_strategy(isog_len)` -/
